@@ -119,7 +119,11 @@ func (dht *IpfsDHT) optimisticProvide(outerCtx context.Context, keyMH multihash.
 	// put operations have finished to avoid the long tail of the latency distribution. If we
 	// provided the outer context the put operations may be cancelled depending on what happens
 	// with the context on the user side.
-	putCtx, putCtxCancel := context.WithTimeout(dht.ctx, time.Minute)
+	//
+	// The put operations are bounded by a timeout that starts when the lookup
+	// ends (see below), not when it starts: a lookup that takes longer than the
+	// timeout must not leave the put operations with an expired context.
+	putCtx, putCtxCancel := context.WithCancel(dht.ctx)
 
 	es, err := dht.newOptimisticState(putCtx, key)
 	if err != nil {
@@ -146,6 +150,9 @@ func (dht *IpfsDHT) optimisticProvide(outerCtx context.Context, keyMH multihash.
 	}()
 
 	lookupRes, err := dht.runLookupWithFollowup(outerCtx, key, dht.pmGetClosestPeers(key), es.stopFn)
+	// give the put operations, including those still to be scheduled below, one
+	// minute from now
+	time.AfterFunc(time.Minute, putCtxCancel)
 	if err != nil {
 		return err
 	}
